@@ -124,13 +124,20 @@ def qrDecode? (p gap M Z : Nat) (signed : Bool := true) : Option Int :=
 /-- ≙ fingroups.py:456-460 SchnorrGroupElement.encode: `g.value**m` -/
 def sgEncode? (p g : Nat) (m : Int) : Option Nat := fpow? g m p
 
-/-- loop of fingroups.py:467-472: `for m in range(1024): if h != M: h = g*h else: break` -/
+/-- loop of fingroups.py `for m in range(1024): if h != M: h = g*h else: break`, `else: raise ValueError` (repo fix df01afd;
+before it the exhausted search returned 1023): the loop returns the number of the power found, or the bound (1024) when the
+search is exhausted -/
 def sgDecodeLoop (p g M : Nat) : Nat → Nat → Nat → Nat
-  | 0, m, _ => m - 1
+  | 0, m, _ => m
   | fuel + 1, m, h => if h != M then sgDecodeLoop p g M fuel (m + 1) (mulMod p g h) else m
 
-/-- ≙ fingroups.py:462-472 SchnorrGroupElement.decode -/
+/-- ≙ SchnorrGroupElement.decode on the messages it finds; 1024 ≙ ValueError('message out of range') -/
 def sgDecode (p g M : Nat) : Nat := sgDecodeLoop p g M 1024 0 (1 % p)
+
+/-- ≙ SchnorrGroupElement.decode: `none` ≙ ValueError -/
+def sgDecode? (p g M : Nat) : Option Nat :=
+  let r := sgDecode p g M
+  if r < 1024 then some r else none
 
 /-! ## Abstract field record and the curve formulas -/
 
